@@ -99,6 +99,36 @@ def collisions(tier, rep):
                 lines.append('bkg %s 0 0 -1 -1 HIST bkg %s %s START %s' % (sn, pn, ftxt(pc['last']), ftxt(sc['first'])))
     if tier == 'quick':
         lines = [l for i, l in enumerate(lines) if i % 2 == vlib.SEED % 2]
+    # double-beta siblings: the same mode on another nuclide is initialised and shot on its own working set before every
+    # port shot (state frozen by, or left behind by, the first user of a mode shows at the rejection thresholds, where a
+    # plain comparison of a few probe events is blind); edge coverage of the successor against the history-free model
+    ring = ['Mo100', 'Nd150', 'Se82', 'Cd106', 'Ru96', 'Zr96', 'Xe136', 'Ca48']
+    sib = []
+    for m in range(1, 21):
+        for i, a in enumerate(ring):
+            b = ring[(i + 1) % len(ring)]
+            if tier == 'quick' and (i + m) % 2:
+                continue
+            sib.append('dbd %s 0 %d -1 -1 HIST dbd %s:0:%d -' % (a, m, b, m))
+    nsib = 0
+    if sib:
+        res3, d3 = dxlib.run_dx('plain', sib, 'c07sib', 'A', 'ref', deadline=300)
+        for r in res3:
+            if 'crashed' in r:
+                rep.violation('sibling:%s:crash' % r['key'], 'explorer child died (%s) on %s' % (r['crashed'], r['key']))
+                continue
+            if r.get('port_err') != 0 or not r.get('hist_active') or not r.get('ref_available'):
+                continue  # this nuclide (or its sibling) does not have the mode
+            nsib += 1
+            for v in r['violations']:
+                if v['oracle'] != 'ref':
+                    continue
+                c = r['config']
+                rep.violation('sibling:%s:m%d:after:%s:%s' % (c['name'], c['mode'], c['hist'].split()[1].split(':')[0], dxlib.why_class(v['why'])),
+                              '%s mode %d explored while %s (same mode) is initialised first and shot before every shot of it: %s (forced=%s)' % (c['name'], c['mode'], c['hist'].split()[1].split(':')[0], v['why'], v['forced']),
+                              dxlib.replay_text(r, v, 'genbbsub'))
+            rep.coverage['evaluations'] += r['executions']
+    rep.coverage['double_beta_sibling_histories'] = nsib
     ex = tr = 0
     nhist = 0
     if lines:
